@@ -549,6 +549,7 @@ func replayLT(ctx *Ctx) (bool, error) {
 
 func runC01(ctx *Ctx) error {
 	ctx.ShardSize = 25
+	ctx.HypLine = true
 	ctx.Imports = []string{"Xml.Print", "Laptimer.Value", "Run.Lt_run"}
 	if os_schema(ctx) {
 		return nil
